@@ -16,6 +16,11 @@ def plans(tier):
         out.append([a, b])
     for a, b, c in itertools.product(segs[:3], repeat=3):
         out.append([a, b, c])
+    # a DEAD greenlet in the middle of the parent chain (it contributes no frames; the walk must go on to its parent)
+    for a, b in itertools.product(segs[:3], repeat=2):
+        out.append([a, ["@dead"] + b])
+        out.append([a, ["@dead"] + b, ["plain"]])
+        out.append([a, b, ["@dead", "plain"]])
     if tier == "thorough":
         segs2 = segs + [["plain", "gen", "coro"], ["plain", "plain", "plain"]]
         for a, b in itertools.product(segs2, repeat=2):
